@@ -161,7 +161,7 @@ func vfC13Scenarios(thorough bool) []*vfGWScenario {
 	msgs := map[string]vfMsgSpec{
 		"m1": {Topic: "t", Author: "p", Seq: 1, Size: 32}, "m2": {Topic: "t", Author: "x", Seq: 2, Size: 32}, "m3": {Topic: "t", Author: "x", Seq: 3, Size: 32},
 	}
-	for _, proto := range []string{"v11", "v13", "v12", "v10", "fs"} {
+	for _, proto := range []string{"v11", "v13", "v12", "v10", "fs", "acme"} {
 		peers := []vfPeerCfg{{Name: "p", Proto: proto, IP: "10.0.0.1"}, {Name: "q", Proto: "v12", IP: "10.0.0.2"}}
 		prefix := []string{"conn:q", "sub:q:t", "join:t", "pub:q:m3"}
 		alphabet := []string{"conn:p", "disc:p", "hold:p", "release:p", "failstream:p", "inclose:p", "inreset:p", "inopen:p", "outreset:p",
